@@ -405,6 +405,8 @@ class Arm(Machine):
         self.r[13] = STACK_TOP
         self.r[14] = RET | 1
         self.abi_extra = []
+        self.vs = [(junk[(i + 3) % len(junk)] >> 7) & 0xFFFFFFFF for i in range(32)]
+        self.saved_vs = {i: self.vs[i] for i in range(16, 32)}
         self.r[0], self.r[1], self.r[2] = a0, a1, a2
         self.saved = {i: self.r[i] for i in (4, 5, 6, 7, 8, 9, 10, 11, 13)}
 
@@ -420,7 +422,7 @@ class Arm(Machine):
 
     def abi_check(self):
         names = {4: "r4", 5: "r5", 6: "r6", 7: "r7", 8: "r8", 9: "r9", 10: "r10", 11: "fp", 13: "sp"}
-        return list(self.abi_extra) + ["callee-saved register %s not restored" % names[i] for i, v in self.saved.items() if self.r[i] != v]
+        return list(self.abi_extra) + ["callee-saved VFP register s%d not preserved" % i for i, v in self.saved_vs.items() if self.vs[i] != v] + ["callee-saved register %s not restored" % names[i] for i, v in self.saved.items() if self.r[i] != v]
 
     def rd(self, i, here):
         if i == 15:
@@ -529,6 +531,18 @@ class Arm(Machine):
             v = (a - b) & 0xFFFFFFFF
             self.setnz(v)
             self.c = 1 if a >= b else 0
+        elif mn == "vmov":
+            # moves between core and VFP single registers; s16-s31 are callee-saved (AAPCS-VFP)
+            a0, a1 = o[0].strip().lower(), o[1].strip().lower()
+            ms, mr = re.match(r"^s(\d+)$", a0), re.match(r"^s(\d+)$", a1)
+            if ms and not mr:
+                self.vs[int(ms.group(1))] = self.rd(self.reg(a1), here)
+            elif mr and not ms:
+                R[self.reg(a0)] = self.vs[int(mr.group(1))]
+            elif ms and mr:
+                self.vs[int(ms.group(1))] = self.vs[int(mr.group(1))]
+            else:
+                raise EmuError("vmov form not modelled")
         elif mn in ("tbh", "tbb"):
             # table branch: pc (the address just behind this instruction, where the table starts) plus twice the entry
             mm = re.match(r"^\[\s*pc\s*,\s*(\w+)\s*(?:,\s*lsl\s*#1\s*)?\]$", ",".join(o).strip().lower())
@@ -657,6 +671,7 @@ class A64(Machine):
         self.x[0], self.x[1], self.x[2] = a0, a1 | (junk[3] & 0xFFFFFFFFFFFFFF00), a2    # upper bits of w1 are unspecified for a uint8_t argument
         self.saved = {i: self.x[i] for i in list(range(19, 30)) + [31]}
         self.v = [((junk[(i + 5) % len(junk)] << 64) | junk[(i + 9) % len(junk)]) & ((1 << 128) - 1) for i in range(32)]
+        self.x18_reported = False
         self.saved_d = {i: self.v[i] & ((1 << 64) - 1) for i in range(8, 16)}       # AAPCS64: the low halves of v8-v15 are callee-saved
 
     def abi_check(self):
@@ -745,6 +760,10 @@ class A64(Machine):
         return int(m.group(1))
 
     def step(self, mn, o, here):
+        if o and o[0].strip().lower() in ("x18", "w18") and mn not in ("str", "stp", "cmp", "tst", "cbz", "cbnz") and not self.x18_reported:
+            # AAPCS64: the platform register (thread context, shadow call stack): platform-independent code leaves it alone
+            self.x18_reported = True
+            self.violations.append("writes the platform register x18 (reserved on Android, Fuchsia, Windows, Darwin and any -ffixed-x18 build)")
         if o and re.match(r"^v\d+\.", o[0].strip().lower()) and mn in ("eor", "mov"):
             return self.step_vec(mn, o)
         if mn in ("eor", "and", "orr", "bic", "add", "sub", "eon", "orn"):
@@ -1080,6 +1099,11 @@ class Xtensa(Machine):
         return ["callee-saved register a%d not restored" % i for i, v in self.saved.items() if self.a[i] != v]
 
     def step(self, mn, o, here):
+        if getattr(self, "windowed", False) and mn not in ("entry", "movsp", "s32i", "s32i.n", "s16i", "s8i") and o and o[0].strip().lower() in ("sp", "a1") \
+                and not mn.startswith("b") and not getattr(self, "_sp_reported", False):
+            # windowed ABI: only ENTRY and MOVSP may change a1 - the window overflow / underflow handlers find the save areas through it
+            self._sp_reported = True
+            self.violations.append("`%s` writes the stack pointer in the windowed ABI (only entry / movsp may)" % mn)
         A = self.a
         if mn in ("xor", "and", "or", "add", "sub"):
             a, b = A[self.reg(o[1])], A[self.reg(o[2])]
